@@ -8,7 +8,8 @@
     runs at an occurrence iff no later call before that occurrence removed it, where an Off naming
     the handler or naming nothing and OffAll remove On/Once handlers, an occurrence uses up Once
     handlers, and only offSubEvent(s) remove sub-event handlers). *)
-From SioV Require Import Base.GoSem Sio.HandlerStore Sio.HandlerStoreProofs Sio.HandlerStoreOrig.
+From SioV Require Import Base.GoSem Sio.HandlerStore Sio.HandlerStoreProofs Sio.HandlerStoreOrig
+  Sio.HandlerStoreHeap Sio.HandlerStoreHeapProofs.
 
 (** For every call sequence (duplicates, several handlers removed in one call, absent handlers,
     any identity test) every occurrence runs exactly the handlers the specification names, in
@@ -91,6 +92,40 @@ Theorem C18_offsub_exact : forall A (same : A -> A -> bool) past h,
   /\ live A same KOn (past ++ [OffSub h]) = live A same KOn past
   /\ live A same KOnce (past ++ [OffSub h]) = live A same KOnce past.
 Proof. exact offsub_exact. Qed.
+
+(** *** Occurrences in progress (HandlerStoreHeap.v: Go slices with array identities).
+    An occurrence is a loop over the slice getAll returned; handlers of that loop may themselves
+    call On/Once/Off/OffAll or emit, other goroutines may do so between two handlers, several
+    occurrences may be in progress at once.  For EVERY interleaving [xs] of registry calls, starts
+    of occurrences and single loop iterations of any occurrence in progress: what occurrence [k]
+    has been handed so far is exactly the first [didx] handlers of the snapshot its getAll took -
+    never a nil cell, nothing skipped, repeated or shifted - and its loop is as long as the
+    snapshot; the snapshot is what the registry held for the event when getAll ran, and no later
+    step changes it. *)
+Theorem C18_dispatch_runs_snapshot : forall A (same : A -> A -> bool) (xs : list (hstepk A)) k d,
+  nth_error (hdisp A (fst (hrun A same (hempty A) xs))) k = Some d ->
+  ran_by A k (snd (hrun A same (hempty A) xs)) = map Some (firstn (didx A d) (dsnap A d))
+  /\ didx A d <= length (dsnap A d)
+  /\ slen (dview A d) = length (dsnap A d).
+Proof. exact dispatch_runs_snapshot. Qed.
+
+Theorem C18_snapshot_taken_at_getAll : forall A (same : A -> A -> bool) st e,
+  exists d, hdisp A (fst (hstep A same st (SBegin e))) = hdisp A st ++ [d] /\ didx A d = 0
+            /\ dsnap A d = hget_vals A (hmem A st) (hev A st) e ++ hget_vals A (hmem A st) (hon A st) e.
+Proof. exact begin_snapshot. Qed.
+
+Theorem C18_snapshot_never_changes : forall A (same : A -> A -> bool) st x k d,
+  nth_error (hdisp A st) k = Some d ->
+  exists d', nth_error (hdisp A (fst (hstep A same st x))) k = Some d' /\ dsnap A d' = dsnap A d
+             /\ dview A d' = dview A d.
+Proof. exact step_keeps_snapshot. Qed.
+
+(** the scenario of the missed mutant: [a;b;c;d] registered, a removes itself while it runs *)
+Example C18_self_removal_during_dispatch :
+  let xs := [SOp (EOn 0 1); SOp (EOn 0 2); SOp (EOn 0 3); SOp (EOn 0 4); SBegin 0; SNext 0;
+             SOp (EOff 0 [1]); SNext 0; SNext 0; SNext 0; SNext 0; SBegin 0; SNext 1; SNext 1; SNext 1]%N in
+  map snd (snd (hrun N N.eqb (hempty N) xs)) = map Some [1; 2; 3; 4; 2; 3; 4]%N.
+Proof. vm_compute. reflexivity. Qed.
 
 (** *** The public lifecycle layer (OnConnect/OffConnect, OnDisconnect/..., all 17 families).
     Handlers are function values; the layer registers and compares fresh pointers. *)
